@@ -55,6 +55,19 @@ func runC20(r *Run) {
 	c20Callers(r, "who:runSubmitter", c20ctl+"runSubmitter", c20ctl+"fetchTail$*")
 	c20Callers(r, "who:verifyConsistency", c20ctl+"verifyConsistency", c20ctl+"fetchTail")
 	c20Callers(r, "who:fetchTail", c20ctl+"fetchTail", c20ctl+"Run")
+
+	// The fetch cursor discipline the migration relies on (source short reads
+	// must not cause gaps, reordering or mislabelled batches): the range
+	// generator and worker rules of C16 over scanner/fetcher.go.
+	r.Rule("C20.R7")
+	r.D.PhiByName = true
+	if fn := r.Fn("(*scanner.Fetcher).genRanges$1"); fn != nil {
+		c16GenRanges(r, fn)
+	}
+	if fn := r.Fn("(*scanner.Fetcher).runWorker"); fn != nil {
+		c16Worker(r, fn)
+	}
+	r.D.PhiByName = false
 }
 
 // c20Callers: every module function calling callee matches ownerGlob (closure
